@@ -275,6 +275,7 @@ def run(prog: Program, rep: Report, tier: str = "quick") -> None:
     from . import game
 
     game.add_instances(rep, game.c19_job, [tier], "R19.5", 9)
+    rep.arbitrate({"R19.4"}, "R19.5", "Bradley-Terry partial pairing == full pairing on two teams")
     rep.supersede({"R19.4"}, "R19.5", "Bradley-Terry partial pairing == full pairing on two teams")
     game.add_instances(rep, game.c19_pred_job, [tier], "R19.6", 12 * (len(prog.roles()) - 1))
 
